@@ -129,6 +129,36 @@ fn jwk_variants(class: &str) -> Vec<Jwk> {
   }
 }
 
+/// A BLS public JWK no store knows.
+fn throwaway_bls_public() -> Jwk {
+  let alg = jsonprooftoken::jpa::algs::ProofAlgorithm::BLS12381_SHA256;
+  let (sk, pk) = identity_storage::key_storage::bls::generate_bbs_keypair(alg).unwrap_or_else(|e| tool_error(&e.to_string()));
+  identity_storage::key_storage::bls::encode_bls_jwk(&sk, &pk, alg).1
+}
+
+/// Independent BBS+ verification (zkryptium) under the ciphersuite the public JWK names.
+fn bbs_verifies(sig: &[u8], public: &Jwk, messages: &[Vec<u8>], header: &[u8]) -> bool {
+  use zkryptium::bbsplus::ciphersuites::Bls12381Sha256;
+  use zkryptium::bbsplus::ciphersuites::Bls12381Shake256;
+  use zkryptium::schemes::algorithms::BBSplus;
+  use zkryptium::schemes::generics::Signature;
+  let Ok((_, pk)) = identity_storage::key_storage::bls::expand_bls_jwk(public) else {
+    return false;
+  };
+  let Ok(bytes): Result<[u8; 80], _> = sig.try_into() else {
+    return false;
+  };
+  match public.alg() {
+    Some("BBS-BLS12381-SHA256") => Signature::<BBSplus<Bls12381Sha256>>::from_bytes(&bytes)
+      .map(|s| s.verify(&pk, Some(messages), Some(header)).is_ok())
+      .unwrap_or(false),
+    Some("BBS-BLS12381-SHAKE256") => Signature::<BBSplus<Bls12381Shake256>>::from_bytes(&bytes)
+      .map(|s| s.verify(&pk, Some(messages), Some(header)).is_ok())
+      .unwrap_or(false),
+    _ => false,
+  }
+}
+
 fn jwk_of_class(class: &str) -> Jwk {
   jwk_variants(class).remove(0)
 }
@@ -317,6 +347,74 @@ impl<B: Backend> Live<B> {
           }
         }
       }
+      name @ ("sign_bbs" | "update_bbs") => {
+        let slot = i(&op["slot"]);
+        let id = self.key_id(slot);
+        let own = if slot == 0 { None } else { Some(self.slots[slot as usize - 1].public.clone()) };
+        let live_bls = |me: i64| {
+          self
+            .slots
+            .iter()
+            .enumerate()
+            .find(|(k, sl)| (*k as i64 + 1) != me && sl.bls && B::block_on(self.store.exists(&sl.id)).unwrap_or(false))
+            .map(|(_, sl)| sl.public.clone())
+        };
+        let public = match s(&op["pub"]) {
+          // a never-issued id is presented with some BLS public JWK
+          "own" => own.clone().or_else(|| live_bls(slot)).unwrap_or_else(throwaway_bls_public),
+          "other_bls" => live_bls(slot).ok_or("no other live BLS key")?,
+          "ed" => jwk_of_class("public_only"),
+          o => tool_error(&format!("bad bbs pub class {o}")),
+        };
+        let data: Vec<Vec<u8>> = vec![b"first message".to_vec(), b"valid from".to_vec(), b"valid until".to_vec(), vec![0u8, 255, 7]];
+        let header = b"header of the harness".to_vec();
+        // a reference signature to update: made by the same store when it can, otherwise any 80 bytes
+        let result = if name == "sign_bbs" {
+          B::block_on(self.store.sign_bbs(&id, &data, &header, &public))
+        } else {
+          // the signature to update: made for this id when the store makes one; otherwise a VALID signature of the key whose
+          // public JWK is presented (so that a refusal is about the key id, not about the signature's shape); else 80 bytes
+          let lender = self
+            .slots
+            .iter()
+            .find(|sl| sl.bls && sl.public == public && B::block_on(self.store.exists(&sl.id)).unwrap_or(false))
+            .map(|sl| sl.id.clone());
+          let base = B::block_on(self.store.sign_bbs(&id, &data, &header, &public))
+            .ok()
+            .or_else(|| lender.and_then(|l| B::block_on(self.store.sign_bbs(&l, &data, &header, &public)).ok()))
+            .unwrap_or_else(|| vec![7u8; 80]);
+          let ctx = identity_storage::ProofUpdateCtx {
+            old_start_validity_timeframe: data[1].clone(),
+            new_start_validity_timeframe: b"valid from later".to_vec(),
+            old_end_validity_timeframe: data[2].clone(),
+            new_end_validity_timeframe: b"valid until later".to_vec(),
+            index_start_validity_timeframe: 1,
+            index_end_validity_timeframe: 2,
+            number_of_signed_messages: data.len(),
+          };
+          B::block_on(self.store.update_signature(&id, &public, &base, ctx))
+        };
+        match result {
+          Err(_) => Ok(json!({"ok": false})),
+          Ok(sig) => {
+            let own = own.ok_or("BBS+ signature produced for an id that was never issued")?;
+            let signed: Vec<Vec<u8>> = if name == "sign_bbs" {
+              data.clone()
+            } else {
+              vec![data[0].clone(), b"valid from later".to_vec(), b"valid until later".to_vec(), data[3].clone()]
+            };
+            if !bbs_verifies(&sig, &own, &signed, &header) {
+              return Err("BBS+ signature does not verify under the key's own public JWK (and its ciphersuite)".into());
+            }
+            for (k, sl) in self.slots.iter().enumerate() {
+              if (k as i64 + 1) != slot && sl.bls && bbs_verifies(&sig, &sl.public, &signed, &header) {
+                return Err(format!("BBS+ signature of slot {slot} verifies under the key of slot {}", k + 1));
+              }
+            }
+            Ok(json!({"ok": true}))
+          }
+        }
+      }
       "delete" => Ok(json!({"ok": B::block_on(self.store.delete(&self.key_id(i(&op["slot"])))).is_ok()})),
       "exists" => match B::block_on(self.store.exists(&self.key_id(i(&op["slot"])))) {
         Ok(v) => Ok(json!({"ok": true, "v": v})),
@@ -342,7 +440,9 @@ fn build<B: Backend>(pre: &Value) -> Result<Live<B>, String> {
   let bls: Vec<i64> = pre.get("bls").map(|b| arr(b).iter().map(i).collect()).unwrap_or_default();
   for k in 1..=n as i64 {
     if bls.contains(&k) {
-      let r = l.apply(&json!({"name": "generate_bbs", "kt": "BLS12381G2", "alg": "BLS12381_SHA256"}))?;
+      // alternate the two ciphersuites
+      let alg = if k % 2 == 1 { "BLS12381_SHA256" } else { "BLS12381_SHAKE256" };
+      let r = l.apply(&json!({"name": "generate_bbs", "kt": "BLS12381G2", "alg": alg}))?;
       if r["ok"] != json!(true) {
         return Err("could not create a BLS key for the pre-state".into());
       }
@@ -393,7 +493,7 @@ fn replay_chunk<B: Backend>(cases: &[Value], rep: &mut Report) {
         if res != case["res"] || post != case["post"] {
           // the contract states what a store may accept; refusing a generate/insert/sign the reference accepts, leaving
           // the store unchanged, is a deviation from the reference, not a breach of the contract
-          let refused_only = matches!(name.as_str(), "generate" | "insert" | "sign" | "generate_bbs")
+          let refused_only = matches!(name.as_str(), "generate" | "insert" | "sign" | "generate_bbs" | "sign_bbs" | "update_bbs")
             && case["res"]["ok"] == json!(true) && res["ok"] == json!(false) && post == case["pre"];
           let key = if refused_only { format!("key_store/~{name}_refused") } else { format!("key_store/{name}") };
           rep.mismatch(&key, case, json!({"res": case["res"], "post": case["post"]}), json!({"res": res, "post": post}), "");
@@ -448,7 +548,14 @@ pub fn record_seq_on<B: Backend>(seed: u64, n: u64, out: &mut TraceOut) {
           let pubs: &[&str] = if live_other { &["own", "other", "no_alg", "wrong_alg", "unknown_alg", "wrong_crv", "wrong_kty"] } else { &["own", "no_alg", "wrong_alg", "unknown_alg", "wrong_crv", "wrong_kty"] };
           json!({"name": "sign", "slot": slot, "pub": pubs[r.gen_range(0..pubs.len())]})
         }
-        50..=61 => json!({"name": "delete", "slot": slot}),
+        50..=53 => {
+          let me_live_bls = slot != 0 && l.slots[slot as usize - 1].bls && B::block_on(l.store.exists(&l.slots[slot as usize - 1].id)).unwrap_or(false);
+          let other_live_bls = l.slots.iter().enumerate().any(|(k, sl)| (k as i64 + 1) != slot && sl.bls && B::block_on(l.store.exists(&sl.id)).unwrap_or(false));
+          let pubs: &[&str] = if other_live_bls && !me_live_bls { &["own", "other_bls", "ed"] } else { &["own", "own", "ed"] };
+          let which = if r.gen_bool(0.5) { "sign_bbs" } else { "update_bbs" };
+          json!({"name": which, "slot": slot, "pub": pubs[r.gen_range(0..pubs.len())]})
+        }
+        54..=61 => json!({"name": "delete", "slot": slot}),
         62..=73 => json!({"name": "exists", "slot": slot}),
         74..=85 => json!({"name": "insert_key_id", "d": r.gen_range(1..=nd), "kid": r.gen_range(1..=3)}),
         86..=93 => json!({"name": "get_key_id", "d": r.gen_range(1..=nd)}),
